@@ -138,6 +138,10 @@ pub struct ListenerBox {
     resolver: Option<Arc<TokioResolver>>,
     /// Client ends of accepted connections (kept open).
     clients: Vec<std::net::TcpStream>,
+    /// Held while this box may own `SO_REUSEPORT` listeners: the kernel may hand the same port to
+    /// reuse-port sockets of another harness process (same user) and would then spread incoming
+    /// connections over both processes.
+    reuse_lock: Option<std::fs::File>,
 }
 
 impl ListenerBox {
@@ -154,6 +158,7 @@ impl ListenerBox {
             server: None,
             resolver: None,
             clients: Vec::new(),
+            reuse_lock: None,
         }
     }
 
@@ -183,6 +188,9 @@ impl ListenerBox {
 
     /// Parse an address token (`/p2p/P<n>`, `/tcp/@k`).
     fn addr(&self, text: &str) -> Option<Multiaddr> {
+        if !text.starts_with('/') || text.len() < 2 {
+            return None;
+        }
         let mut out = String::new();
         let mut prev: &str = "";
         for seg in text.split('/').skip(1) {
@@ -286,6 +294,18 @@ impl ListenerBox {
                 }
                 self.listener = None;
                 self.clients.clear();
+                if *reuse == "1" && self.reuse_lock.is_none() {
+                    if let Ok(file) = std::fs::OpenOptions::new()
+                        .create(true)
+                        .write(true)
+                        .truncate(false)
+                        .open(std::env::temp_dir().join("litep2p-verif-reuseport.lock"))
+                    {
+                        if file.lock().is_ok() {
+                            self.reuse_lock = Some(file);
+                        }
+                    }
+                }
                 let (listener, reported, dial) = {
                     let _guard = self.runtime.enter();
                     SocketListener::new::<TcpAddress>(addresses, *reuse == "1", *nodelay == "1")
@@ -306,7 +326,7 @@ impl ListenerBox {
                 }
                 // The interfaces are enumerated in a different order on every call: the addresses
                 // reported for one unspecified listener are printed sorted (the group of a listener
-                // ends where its port or family changes or an address repeats).
+                // ends where its port or family changes, an address repeats or is not an interface address).
                 let sockets: Vec<Option<SocketAddr>> = reported
                     .iter()
                     .map(|a| match TcpAddress::multiaddr_to_socket_address(a) {
@@ -314,6 +334,17 @@ impl ListenerBox {
                         _ => None,
                     })
                     .collect();
+                let interface_ips: Vec<IpAddr> = NetworkInterface::show()
+                    .map(|list| {
+                        list.into_iter()
+                            .flat_map(|record| record.addr.into_iter())
+                            .map(|a| match a {
+                                Addr::V4(inner) => IpAddr::V4(inner.ip),
+                                Addr::V6(inner) => IpAddr::V6(inner.ip),
+                            })
+                            .collect()
+                    })
+                    .unwrap_or_default();
                 let mut order: Vec<usize> = Vec::new();
                 let mut at = 0;
                 for local in locals.iter().flatten() {
@@ -332,6 +363,7 @@ impl ListenerBox {
                             Some(s)
                                 if s.port() == local.port()
                                     && s.is_ipv4() == local.is_ipv4()
+                                    && interface_ips.contains(&s.ip())
                                     && !seen.contains(&s.ip()) =>
                             {
                                 seen.push(s.ip());
